@@ -176,6 +176,62 @@ func c07run(enc *json.Encoder, id int, sc c07scen, rng *rand.Rand) {
 			enc.Encode(map[string]any{"ev": "FlushCall"})
 			ok := c07untilDone(g, func() { aw.Flush() })
 			report("FlushReturn", ok)
+		case "S", "D":
+			// a flush (S) or close (D) that meets a stalled disk: the disk stays shut for op.N milliseconds after the call
+			// was made.  The content of the disk is read at the moment the call returns, whenever that is.
+			if closed {
+				break
+			}
+			flushBatch()
+			name := map[string]string{"S": "Flush", "D": "Close"}[op.Op]
+			enc.Encode(map[string]any{"ev": name + "Call"})
+			type sres struct {
+				ids               []int
+				garbled, trailing int
+				err               string
+			}
+			done := make(chan sres, 1)
+			go func() {
+				var err error
+				if op.Op == "S" {
+					err = aw.Flush()
+				} else {
+					aw.Close()
+				}
+				ids, garbled, trailing := c07parse(g.content())
+				r := sres{ids: ids, garbled: garbled, trailing: trailing}
+				if err != nil {
+					r.err = err.Error()
+				}
+				done <- r
+			}()
+			opened := false
+			stall := time.After(time.Duration(op.N) * time.Millisecond)
+			limit := time.After(time.Duration(op.N)*time.Millisecond + 5*time.Second)
+			var r sres
+			returned, early := false, false
+		waitS:
+			for {
+				select {
+				case r = <-done:
+					returned, early = true, !opened
+					break waitS
+				case <-stall:
+					g.setOpen(true)
+					opened = true
+				case <-limit:
+					break waitS
+				}
+			}
+			g.setOpen(false)
+			if !returned {
+				r.ids = []int{}
+			}
+			enc.Encode(map[string]any{"ev": name + "Return", "recs": r.ids, "garbled": r.garbled, "trailing": r.trailing, "header": true,
+				"returned": returned, "err": r.err, "early": early, "stallms": op.N})
+			if op.Op == "D" {
+				closed = true
+			}
 		case "C":
 			if !closed {
 				flushBatch()
@@ -233,6 +289,17 @@ func TestVerifC07(t *testing.T) {
 			}
 		}
 		scens = append(scens, sc)
+	}
+	// a flush / close that meets a disk stall of various lengths, followed by more writes and another stalled flush or close
+	stalls := []int{25, 1250}
+	if os.Getenv("VERIF_TIER") != "quick" {
+		stalls = []int{25, 300, 1250, 2600, 5600}
+	}
+	for _, ms := range stalls {
+		for _, last := range []string{"S", "D"} {
+			scens = append(scens, c07scen{Cap: 3, Origin: "stalled-flush", Ops: []c07op{{"W", 10}, {"W", 100}, {"S", ms}, {"W", 10}, {"S", 25}, {"W", 100}, {"W", 10}, {last, 25}, {"W", 10}}})
+		}
+		scens = append(scens, c07scen{Cap: 2, Origin: "stalled-flush", Ops: []c07op{{"W", 5000}, {"R", 1}, {"W", 10}, {"S", ms}, {"S", 25}, {"W", 10}, {"D", 40}}})
 	}
 	for i, sc := range scens {
 		c07run(enc, i+1, sc, rng)
